@@ -4,6 +4,8 @@
 package setz
 
 //@ spec member(b ref, n int) bool = 0 <= n && n/64 < len(b.set) && bit(b.set[n/64], n%64) == 1
+// two sets never share storage (an empty set has none): required of the operands of the bulk operations, and kept by them
+//@ spec apart(a bytes_any, b bytes_any) bool = !sameArray(a, b) || cap(a) == 0
 //@ recspec card(row seq, off int, n int) int = ite(n <= 0, 0, card(row, off, n-1) + pc64(row[off+n-1]))
 //@ spec bcard(b ref) int = card(rowof(b.set), offof(b.set), len(b.set))
 
@@ -69,7 +71,8 @@ package setz
 //@   ensures bcard(b) == old(bcard(b)) - ite(result, 1, 0)
 
 //@ func Bitmap.Diff
-//@   requires !sameArray(b.set, other.set)
+//@   requires apart(b.set, other.set)
+//@   ensures apart(b.set, other.set)
 //@   modifies b.set[0:len(b.set)]
 //@   ensures forall k in 0..len(b.set): forall j in 0..64: bit(b.set[k], j) == ite(k < len(other.set) && bit(other.set[k], j) == 1, 0, bit(old(b.set[k]), j))
 //@   loop 1:
@@ -78,7 +81,8 @@ package setz
 //@     decreases len(b.set) - i
 
 //@ func Bitmap.Intersect
-//@   requires !sameArray(b.set, other.set)
+//@   requires apart(b.set, other.set)
+//@   ensures apart(b.set, other.set)
 //@   modifies b.set[0:len(b.set)]
 //@   ensures forall k in 0..len(b.set): forall j in 0..64: bit(b.set[k], j) == ite(k < len(other.set) && bit(other.set[k], j) == 1, bit(old(b.set[k]), j), 0)
 //@   loop 1:
@@ -109,19 +113,22 @@ package setz
 //@   ensures b.length == old(b.length) - ite(result, 1, 0)
 
 //@ func Bits.Diff
-//@   requires !sameArray(b.set, other.set)
+//@   requires apart(b.set, other.set)
+//@   ensures apart(b.set, other.set)
 //@   modifies b.length, b.set[0:len(b.set)]
 //@   ensures b.length == bcard(b)
 //@   ensures forall k in 0..len(b.set): forall j in 0..64: bit(b.set[k], j) == ite(k < len(other.set) && bit(other.set[k], j) == 1, 0, bit(old(b.set[k]), j))
 
 //@ func Bits.Intersect
-//@   requires !sameArray(b.set, other.set)
+//@   requires apart(b.set, other.set)
+//@   ensures apart(b.set, other.set)
 //@   modifies b.length, b.set[0:len(b.set)]
 //@   ensures b.length == bcard(b)
 //@   ensures forall k in 0..len(b.set): forall j in 0..64: bit(b.set[k], j) == ite(k < len(other.set) && bit(other.set[k], j) == 1, bit(old(b.set[k]), j), 0)
 
 //@ func Bitmap.Merge
-//@   requires !sameArray(b.set, other.set)
+//@   requires apart(b.set, other.set)
+//@   ensures apart(b.set, other.set)
 //@   modifies b.set, b.set[0:cap(b.set)]
 //@   ensures len(b.set) == max(old(len(b.set)), len(other.set))
 //@   ensures forall k in 0..len(b.set): forall j in 0..64: bit(b.set[k], j) == ite(k < len(other.set) && bit(other.set[k], j) == 1, 1, ite(k < old(len(b.set)), bit(old(b.set[k]), j), bit(other.set[k], j)))
@@ -134,7 +141,8 @@ package setz
 //@     decreases len(other.set) - i
 
 //@ func Bits.Merge
-//@   requires !sameArray(b.set, other.set)
+//@   requires apart(b.set, other.set)
+//@   ensures apart(b.set, other.set)
 //@   modifies b.length, b.set, b.set[0:cap(b.set)]
 //@   ensures b.length == bcard(b)
 //@   ensures len(b.set) == max(old(len(b.set)), len(other.set))
